@@ -82,9 +82,9 @@ func propDefs() map[string]*PropDef {
 		DesignRef: "DESIGN.md section 5 C03, section 12",
 	}
 	m["C04"] = &PropDef{
-		ID:    "C04",
+		ID: "C04",
 		Funcs: append(wrapperFuncs([]string{"Prefix", "All", "restoreKey"}, safetyInc), append(seqFuncsOnly("lowestCommonParent", safetyInc), append(seqFuncsOnly("filter$1", append([]string{`/only_matching`}, safetyInc...)),
-				FuncCheck{Fn: "(*alphaSortedTree[K,V]).Prefix$1", Layer: "C"}, FuncCheck{Fn: "(*collationSortedTree[K,V]).Prefix$1", Layer: "C"})...)...),
+			FuncCheck{Fn: "(*alphaSortedTree[K,V]).Prefix$1", Layer: "C"}, FuncCheck{Fn: "(*collationSortedTree[K,V]).Prefix$1", Layer: "C"})...)...),
 		Floor: 150,
 		Assumptions: []string{
 			"SCOPE: decides the 'returns normally for every p and every tree shape' clause of C04: Prefix of the byte-string and collation trees, lowestCommonParent per leaf class (descent loop with invariant 0 <= depth <= len(prefix), live current node, and a decreasing measure: it terminates) and the filtering scan filter$1 carry an obligation at every index, slice, cast, unsafe.Slice and callee precondition, for every p and every tree satisfying WF1; the selected subtree is proved to be a live node of the same tree (ensures live). Defect F5 (fixed) had a panic of this kind as one symptom",
